@@ -34,6 +34,7 @@ CONSTANTS Kind,          \* "dict" | "list" | "list2" (bounds 2..5, for extended
           Small,         \* TRUE: reduced argument pools (exhaustive configurations)
           Avoid,         \* TRUE: second simulation pass that stays away from the two mechanisms with open findings
                          \*       (element removal at min_size, rebind-append/insert at max_size) to keep behaviours long
+          AccW,          \* the container's accessor_writable flag (objects: allow_symbolic_assignment)
           Acts           \* enabled action families
 
 VARIABLES root,          \* content (value record)
@@ -224,6 +225,15 @@ Step(okk, nroot, nalts, sc, a) ==
   /\ act' = a
   /\ ext' = ext
 StepL(r, a) == Step(r.ok, Lift(r.l), {Lift(x) : x \in r.alts}, "N", a)
+\* Accessor-style writes (d[k] = v, d.k = v, del d[k], and setdefault when it has to write) are refused with a
+\* WritePermissionError -- before anything else is looked at, and nothing changes -- unless accessors are writable:
+\* the container's own flag, overridden by a pg.allow_writable_accessors(True / False) scope.  Methods (pop, clear,
+\* update, |=, rebind, the constructor) work whatever the flag and the scope are.
+AScopes == IF ~Small THEN {"N", "T", "F"}
+           ELSE IF Kind # "dict" THEN {"N"}                 \* (exhaustive runs: the dimension is explored on the dict kind)
+           ELSE IF AccW THEN {"N", "F"} ELSE {"N", "T"}
+EffW(aw) == IF aw = "N" THEN AccW ELSE aw = "T"
+Refused(a) == /\ out' = "perm" /\ alts' = {root} /\ root' = root /\ pok' = pok /\ act' = a /\ ext' = ext
 StepF(r, sc, a) == IF r.dc THEN /\ out' = "any" /\ alts' = {r.c} /\ root' = r.c /\ pok' = (pok \/ (sc = "T")) /\ act' = a /\ ext' = ext
                    ELSE Step(r.ok, r.c, {r.c}, sc, a)
 
@@ -233,7 +243,9 @@ FSet(name) == \E k \in P(KeysOf), v \in P(FieldPool), sc \in P(Scopes) :
                  /\ ~(name = "OSetAttr" /\ k = 9)                    \* o.k9 = v creates a plain Python attribute
                  /\ (IsTyped(v) => k = TypedKey)                     \* a typed container is offered to the field of its type
                  /\ AvoidOK(FW(root, k, v, Eff(sc)), k)
-                 /\ StepF(FW(root, k, v, Eff(sc)), sc, <<name, sc, k, v>>)
+                 /\ \E aw \in P(AScopes) :
+                      IF EffW(aw) THEN StepF(FW(root, k, v, Eff(sc)), sc, <<name, sc, k, v, aw>>)
+                      ELSE Refused(<<name, sc, k, v, aw>>)
 DSet == "dset" \in Acts /\ Kind = "dict" /\ FSet("DSet")             \* d[k] = v   (v = MISSING: the marker assignment)
 DSetAttr == "dset" \in Acts /\ Kind = "dict" /\ FSet("DSetAttr")     \* d.k = v
 OSetAttr == "oset" \in Acts /\ Kind \in {"obj", "nest"} /\ FSet("OSetAttr")      \* o.k = v    (k9: not generated, a plain attribute)
@@ -244,21 +256,26 @@ Rebind1(name) == \E k \in P(KeysOf), v \in P(FieldPool), sc \in P(Scopes) :
                  /\ StepF(FW(root, k, v, Eff(sc)), sc, <<name, sc, <<k>>, v>>)
 DRebind1 == "rebind" \in Acts /\ Kind = "dict" /\ Rebind1("Rebind1")
 ORebind1 == "rebind" \in Acts /\ Kind \in {"obj", "nest"} /\ Rebind1("Rebind1")
-DDelLike(name) == \E k \in P(KeysOf), sc \in P(Scopes) :
-                 AvoidOK(FW(root, k, VMissing, Eff(sc)), k) /\ StepF(IF HasKey(root, k) THEN FW(root, k, VMissing, Eff(sc)) ELSE FR(FALSE, root), sc, <<name, sc, k>>)
+DDelLike(name) == \E k \in P(KeysOf), sc \in P(Scopes), aw \in P(AScopes) :
+                 /\ AvoidOK(FW(root, k, VMissing, Eff(sc)), k)
+                 /\ IF name = "DDel" /\ ~EffW(aw) THEN Refused(<<name, sc, k, aw>>)      \* pop is a method, del an accessor
+                    ELSE StepF(IF HasKey(root, k) THEN FW(root, k, VMissing, Eff(sc)) ELSE FR(FALSE, root), sc, <<name, sc, k, aw>>)
 DDel == "ddel" \in Acts /\ Kind = "dict" /\ DDelLike("DDel")         \* del d[k]
 DPop == "ddel" \in Acts /\ Kind = "dict" /\ DDelLike("DPop")         \* d.pop(k)
 RECURSIVE ClearAll(_,_,_)
 ClearAll(c, ks, p) == IF ks = <<>> THEN FR(TRUE, c)
                       ELSE LET r == FW(c, ks[1], VMissing, p) IN IF r.ok THEN ClearAll(r.c, Tail(ks), p) ELSE FR(FALSE, c)
 DClear == /\ "ddel" \in Acts /\ Kind = "dict"
-          /\ \E sc \in P(Scopes) :
+          /\ \E sc \in P(Scopes), aw \in P(AScopes) :                     \* a method: the accessor flag / scope is irrelevant
                LET r == ClearAll(root, [i \in 1..Len(root.xs) |-> root.xs[i][1]], Eff(sc))
-               IN (~Avoid \/ r.ok) /\ StepF(IF r.ok THEN r ELSE FR(FALSE, root), sc, <<"DClear", sc>>)
+               IN (~Avoid \/ (r.ok /\ EffW(aw)))           \* (Avoid: open finding C03-F6, clear() while accessors are not writable)
+                  /\ StepF(IF r.ok THEN r ELSE FR(FALSE, root), sc, <<"DClear", sc, aw>>)
 DSetDefault == /\ "dset" \in Acts /\ Kind = "dict"
-               /\ \E k \in P(KeysOf), v \in P(FieldPool \ {VMissing}) :
-                    (IsTyped(v) => k = TypedKey) /\ AvoidOK(FW(root, k, v, InitPartial), k) /\ StepF(IF HasKey(root, k) /\ ValAt(root, k) # VMissing THEN FR(TRUE, root) ELSE FW(root, k, v, InitPartial),
-                          "N", <<"DSetDefault", "N", k, v>>)
+               /\ \E k \in P(KeysOf), v \in P(FieldPool \ {VMissing}), aw \in P(AScopes) :
+                    /\ (IsTyped(v) => k = TypedKey) /\ AvoidOK(FW(root, k, v, InitPartial), k)
+                    /\ IF HasKey(root, k) /\ ValAt(root, k) # VMissing THEN StepF(FR(TRUE, root), "N", <<"DSetDefault", "N", k, v, aw>>)
+                       ELSE IF ~EffW(aw) THEN Refused(<<"DSetDefault", "N", k, v, aw>>)               \* it writes through d[k] = v
+                       ELSE StepF(FW(root, k, v, InitPartial), "N", <<"DSetDefault", "N", k, v, aw>>)
 \* batches of two field writes on different keys: update / |= / rebind with two paths
 BatchPool == IF Small THEN {IntV(0), IntV(-1), StrV(1)} ELSE FieldPool \ {VMissing}
 BatchKeys == IF Small /\ Kind = "dict" THEN {1, 5, 7, 9} ELSE KeysOf
@@ -403,7 +420,7 @@ AltsConform == \A c \in alts : ConformsTo(c, pok)       \* ... whichever admissi
 
 IsBatch(a) == a[1] \in {"DUpdate", "DIor", "Rebind2", "LRebind2", "LExtend", "LIadd", "LSetSlice", "LSetSliceX", "LImul"}
 \* a rejected write is not stored (a batch may have kept earlier valid elements: one of `alts`)
-RejectedWriteNoStore == [][out' \in {"err", "any"} => /\ root \in alts'
+RejectedWriteNoStore == [][out' \in {"err", "any", "perm"} => /\ root \in alts'
                                            /\ root' \in alts'
                                            /\ (~IsBatch(act') => root' = root)
                                            /\ ext' = ext]_vars
